@@ -38,6 +38,53 @@ UNITS.append(Unit(
     assumptions=["type invariant of queue contents: every element of a process queue is a live EbFifo, of an "
                  "object queue a live EbObjectWrapper (is_fresh in the abstract pop contract)"]))
 
+L2R = ["svt_circular_buffer_push_back", "svt_circular_buffer_push_front", "svt_muxing_queue_assignation"]
+for uid, entry, fn, what in [
+    ("U23.4.mq_pushb", "h_mq_pushb", "svt_muxing_queue_object_push_back",
+     "queues exactly the object at the back of the object queue, then runs one assignation on this queue (in that order)"),
+    ("U23.4.mq_pushf", "h_mq_pushf", "svt_muxing_queue_object_push_front",
+     "queues exactly the object at the front of the object queue, then runs one assignation on this queue"),
+    ("U23.4.relproc", "h_relproc", "svt_release_process",
+     "under the muxing queue's mutex: the FIFO goes to the front of the process queue of its own queue, then one "
+     "assignation; mutex released on return"),
+]:
+    UNITS.append(Unit(uid=uid, prop="C23", harness=H, entry=entry, functions=[fn], mode="dfcc", enforce=fn,
+                      replace=[r for r in L2R], defines=["C23_L2"], min_obligations=20, what=what))
+
+L3R = ["svt_muxing_queue_object_push_back", "svt_muxing_queue_object_push_front", "svt_release_process",
+       "svt_fifo_pop_front", "svt_fifo_peak_front"]
+for uid, entry, fn, defs, repl, what in [
+    ("U23.5.get_full", "h_get_full", "svt_get_full_object", [], L3R,
+     "announces itself once, then blocks once on its own semaphore holding no mutex, then under the FIFO mutex pops "
+     "the HEAD (posting order) unless quit_signal: then NULL + EB_NoErrorFifoShutdown; semaphore invariant kept"),
+    ("U23.5.get_empty", "h_get_empty", "svt_get_empty_object", [], L3R,
+     "same protocol on a producer FIFO; the wrapper handed out is the head, with live_count 0 and release enabled"),
+    ("U23.5.get_full_nb", "h_get_full_nb", "svt_get_full_object_non_blocking", ["C23_L3_NONBLOCKING"],
+     L3R + ["svt_get_full_object"],
+     "never waits on a semaphore itself; empty or shut-down FIFO => NULL immediately; otherwise delegates once"),
+    ("U23.4.release", "h_release", "svt_release_object", [], L3R,
+     "live_count' = max(live-1,0); the wrapper goes back to the empty queue of its own resource iff release enabled "
+     "and live_count' == 0, exactly once, under the empty queue's mutex; then marked released"),
+    ("U23.4.post", "h_post", "svt_post_full_object", [], L3R,
+     "exactly one push of exactly this wrapper at the back of its resource's full queue, under that queue's mutex"),
+    ("U23.4.inc", "h_inc", "svt_object_inc_live_count", [], L3R, "live_count += n under the empty queue's mutex"),
+    ("U23.4.enable", "h_enable", "svt_object_release_enable", [], L3R, "release_enable = TRUE under the mutex"),
+    ("U23.4.disable", "h_disable", "svt_object_release_disable", [], L3R, "release_enable = FALSE under the mutex"),
+    ("U23.6.fifo_shutdown", "h_fifo_shutdown", "svt_fifo_shutdown", ["C23_L3_SHUTDOWN"], L3R,
+     "quit_signal set under the FIFO mutex, then (mutex released) exactly one post on this FIFO's semaphore"),
+]:
+    UNITS.append(Unit(uid=uid, prop="C23", harness=H, entry=entry, functions=[fn], mode="dfcc", enforce=fn,
+                      replace=list(repl), defines=["C23_L3"] + defs, min_obligations=20, what=what))
+UNITS.append(Unit(
+    uid="U23.6.shutdown", prop="C23", harness=H, entry="h_shutdown", functions=["svt_shutdown_process"], mode="dfcc",
+    enforce="svt_shutdown_process", replace=["svt_fifo_shutdown", "svt_system_resource_get_consumer_fifo"],
+    defines=["C23_L3", "C23_L3_SHUTDOWN_LOOP"], loop_contracts=1, canaries=2, min_obligations=20,
+    slice_spec=[{"kind": "annot", "file": SRM, "func_re": r"^EbErrorType svt_shutdown_process\(",
+                 "loop": "for (unsigned int i = 0; i < resource_ptr->full_queue->process_total_count; i++) {",
+                 "name": "shutdown_all", "text": "VERIF_LOOP_SHUTDOWN"}],
+    what="unbounded (loop contract): every consumer FIFO of the resource is shut down exactly once; NULL or "
+         "partially constructed resource => nothing"))
+
 META = {"C23": {
     "level": "proof",
     "explanation": "Representation-invariant and exact functional contracts on every operation of "
